@@ -531,13 +531,23 @@ impl Property for C14 {
         "C14"
     }
     fn plan(&self, tier: Tier) -> Vec<Segment> {
-        vec![Segment::random("BitVec", tier.pick(60_000, 800_000), &[0], 16, 80), Segment::random("BitFieldVec", tier.pick(90_000, 1_200_000), &[1], 16, 80)]
+        vec![
+            Segment::random("BitVec", tier.pick(60_000, 800_000), &[0], 16, 80),
+            Segment::random("BitFieldVec", tier.pick(90_000, 1_200_000), &[1], 16, 80),
+            // the parallel bulk operations split their work only from 200000 words upward
+            Segment::enumerated("parallel-bulk-ops-over-large-dirty-storage", tier.pick(12, 72), &[0xF1]),
+        ]
     }
     fn rule(&self) -> &'static str {
         "case = (vector kind BitVec / BitFieldVec<u8..u128,usize>, contents, width, length, garbage class (all ones / random / a single bit just past the end) in every backend bit at or beyond len*width, 0..3 extra trailing words, op list) decoded from bytes; the vector is placed over the dirty image by from_raw_parts. Read side: get, count_ones/zeros, par_count_ones, iter, iter_ones, iter_zeros, ==, to_owned, rank_hinted/select_hinted/select_zero_hinted within range, forward and reverse unchecked iterators, atomic count/iter answer exactly as over clean storage (dirty == clean, clean == dirty, dirty == differently-dirty). Write side: after every mutator (set, fill, flip, reset, par_*, copy into it, apply_in_place, writes through try_chunks_mut views, set_atomic, swap, reset_atomic, atomic fill/flip) the whole backend (as_slice / AsRef) equals model bits inside the logical region and the original garbage everywhere else. Non-trivial: garbage non-zero and (len*width not a multiple of the word size or extra words present); distinct = distinct hash of the decoded case."
     }
     fn run(&self, data: &[u8], cx: &mut Ctx) -> R {
         let (mode, rest) = data.split_first().unwrap_or((&0, &[]));
+        if *mode == 0xF1 {
+            let mut b = [0u8; 8];
+            b[..rest.len().min(8)].copy_from_slice(&rest[..rest.len().min(8)]);
+            return par_large_dirty_case(cx, u64::from_le_bytes(b));
+        }
         let mut u = Unstructured::new(rest);
         if *mode == 0 {
             return bitvec_case(cx, &mut u);
@@ -551,4 +561,120 @@ impl Property for C14 {
             _ => bfv_case::<usize>(cx, &mut u),
         }
     }
+}
+
+/// Parallel bulk operations on backends of at least 200000 words (below that
+/// rayon does not split `with_min_len(RAYON_MIN_LEN)` iterators and the
+/// parallel code runs sequentially), over dirty storage: stale bits in the
+/// last word and spare trailing words.
+fn par_large_dirty_case(cx: &mut Ctx, j: u64) -> R {
+    let full = [200_000usize, 400_000, 200_001, 300_007, 1_000_000, 250_000][j as usize % 6];
+    let residual = [37usize, 0, 63, 1, 0, 17][(j / 2) as usize % 6];
+    let spare = [0usize, 3, 200_000, 1, 400_001, 0][(j / 3) as usize % 6];
+    let len = full * 64 + residual;
+    let nw = len.div_ceil(64);
+    cx.hash(&("par-large-dirty", j));
+    cx.describe(|| format!("parallel bulk ops: {full} full words + {residual} bits, {spare} spare words, all garbage"));
+    cx.label("parallel_large");
+    cx.nontrivial_if(residual != 0 || spare != 0);
+    let mut x = 0x2545_F491_4F6C_DD1Du64 ^ j;
+    let mut image: Vec<usize> = (0..nw + spare).map(|_| xs(&mut x) as usize | 1).collect();
+    if j % 4 == 3 {
+        image.iter_mut().for_each(|w| *w = !0);
+    }
+    let lastmask = if residual == 0 { !0usize } else { (1usize << residual) - 1 };
+    // expected backend after an operation that maps every logical bit through `f`
+    let expect = |image: &[usize], f: &dyn Fn(usize) -> usize| -> Vec<usize> {
+        let mut e = image.to_vec();
+        for w in e[..len / 64].iter_mut() {
+            *w = f(*w);
+        }
+        if residual != 0 {
+            e[nw - 1] = (f(e[nw - 1]) & lastmask) | (e[nw - 1] & !lastmask);
+        }
+        e
+    };
+    let cmp = |cx: &mut Ctx, got: &[usize], want: &[usize], what: &str| -> R {
+        if got != want {
+            let i = (0..want.len()).find(|i| got[*i] != want[*i]).unwrap();
+            let n = (0..want.len()).filter(|i| got[*i] != want[*i]).count();
+            let region = if i >= nw { "a spare word" } else if i == nw - 1 && residual != 0 { "the last, partial word" } else { "a content word" };
+            return Err(Fail::mismatch(&format!("par.large.{what}"), format!("{what} over {len} bits + {spare} spare words: backend word {i} ({region}) is {:#x}, expected {:#x}; {n} words differ", got[i], want[i])));
+        }
+        let _ = cx;
+        Ok(())
+    };
+    let ones: usize = image[..len / 64].iter().map(|w| w.count_ones() as usize).sum::<usize>() + if residual != 0 { (image[nw - 1] & lastmask).count_ones() as usize } else { 0 };
+    let mut bv = unsafe { BitVec::from_raw_parts(image.clone(), len) };
+    let c = cx.must("par_count_ones", || bv.par_count_ones())?;
+    cx.check_eq(c, ones, "par.large.par_count_ones", || format!("par_count_ones over {len} dirty bits + {spare} spare words"))?;
+    let c = cx.must("count_ones", || bv.count_ones())?;
+    cx.check_eq(c, ones, "par.large.count_ones", || format!("count_ones over {len} dirty bits + {spare} spare words"))?;
+    cx.must("par_flip", || bv.par_flip())?;
+    let want = expect(&image, &|w| !w);
+    cmp(cx, bv.as_ref(), &want, "par_flip")?;
+    cx.must("par_fill", || bv.par_fill(true))?;
+    let want = expect(&image, &|_| !0);
+    cmp(cx, bv.as_ref(), &want, "par_fill(true)")?;
+    let c = cx.must("par_count_ones", || bv.par_count_ones())?;
+    cx.check_eq(c, len, "par.large.par_count_ones", || format!("par_count_ones after par_fill(true) over {len} dirty bits"))?;
+    cx.must("par_reset", || bv.par_reset())?;
+    let want = expect(&image, &|_| 0);
+    cmp(cx, bv.as_ref(), &want, "par_reset")?;
+    cx.must("par_fill", || bv.par_fill(false))?;
+    cmp(cx, bv.as_ref(), &want, "par_fill(false)")?;
+    // sequential twins on the same storage
+    cx.must("fill", || bv.fill(true))?;
+    let want1 = expect(&image, &|_| !0);
+    cmp(cx, bv.as_ref(), &want1, "fill(true)")?;
+    cx.must("flip", || bv.flip())?;
+    cmp(cx, bv.as_ref(), &want, "flip")?;
+    drop(bv);
+    // atomic twin
+    let av: Vec<AtomicUsize> = image.iter().map(|w| AtomicUsize::new(*w)).collect();
+    let mut a = unsafe { AtomicBitVec::from_raw_parts(av, len) };
+    let snapshot = |a: &AtomicBitVec<Vec<AtomicUsize>>| -> Vec<usize> {
+        let s: &[AtomicUsize] = a.as_ref();
+        s.iter().map(|w| w.load(Ordering::Relaxed)).collect()
+    };
+    let c = cx.must("atomic.par_count_ones", || a.par_count_ones())?;
+    cx.check_eq(c, ones, "par.large.atomic.par_count_ones", || format!("AtomicBitVec::par_count_ones over {len} dirty bits"))?;
+    cx.must("atomic.par_flip", || a.par_flip(Ordering::Relaxed))?;
+    cmp(cx, &snapshot(&a), &expect(&image, &|w| !w), "atomic.par_flip")?;
+    cx.must("atomic.par_fill", || a.par_fill(true, Ordering::Relaxed))?;
+    cmp(cx, &snapshot(&a), &expect(&image, &|_| !0), "atomic.par_fill(true)")?;
+    cx.must("atomic.par_reset", || a.par_reset(Ordering::Relaxed))?;
+    cmp(cx, &snapshot(&a), &expect(&image, &|_| 0), "atomic.par_reset")?;
+    drop(a);
+    // BitFieldVec::par_reset / par_reset_atomic over dirty storage
+    let width = [7usize, 64, 1, 33, 13, 32][(j / 2) as usize % 6];
+    let n = (full * 64 + residual) / width;
+    let used = n * width;
+    let uw = used.div_ceil(64);
+    let mut img2 = image.clone();
+    img2.truncate((uw + spare).min(image.len()));
+    let mut v = unsafe { BitFieldVec::<usize, Vec<usize>>::from_raw_parts(img2.clone(), width, n) };
+    if j % 2 == 0 {
+        cx.must("bfv.par_reset", || v.par_reset())?;
+    } else {
+        let (bits, w, l) = v.into_raw_parts();
+        let ab: Vec<AtomicUsize> = bits.into_iter().map(AtomicUsize::new).collect();
+        let mut a = unsafe { AtomicBitFieldVec::<usize, Vec<AtomicUsize>>::from_raw_parts(ab, w, l) };
+        cx.must("bfv.par_reset_atomic", || a.par_reset_atomic(Ordering::Relaxed))?;
+        let (bits, w, l) = a.into_raw_parts();
+        v = unsafe { BitFieldVec::from_raw_parts(bits.into_iter().map(|x| x.into_inner()).collect(), w, l) };
+    }
+    let mut want = img2.clone();
+    for w in want[..used / 64].iter_mut() {
+        *w = 0;
+    }
+    if used % 64 != 0 {
+        want[uw - 1] &= !((1usize << (used % 64)) - 1);
+    }
+    let got: &[usize] = v.as_slice();
+    if got != &want[..] {
+        let i = (0..want.len()).find(|i| got[*i] != want[*i]).unwrap();
+        return Err(Fail::mismatch("par.large.bfv.par_reset", format!("BitFieldVec par_reset ({n} x {width} bits, {} words backend): word {i} is {:#x}, expected {:#x}", want.len(), got[i], want[i])));
+    }
+    Ok(())
 }
